@@ -4,7 +4,7 @@
    a message never handed to a connection before carries DUP = 0, QoS 0 never carries DUP - for every
    protocol-conforming history. *)
 From PahoV Require Import Base.Prelude Codec.Mid Codec.MidProofs Session2.Model Session2.Legacy Session2.Check
-  Session2.LLemmas Session2.LInvS Session2.Statements.
+  Session2.LLemmas Session2.LInv Session2.Statements.
 From Coq Require Import Sorting.Sorted.
 
 (* ---------------------------------------------------------------- sets of tags *)
@@ -225,7 +225,7 @@ Definition same_but (k k' : k02) : Prop :=
 Definition hc (k : k02) (x : qpkt) : Prop :=
   match q_pkt x with
   | PPublish _ qs d t =>
-      (p = true -> zin t (k2_rec k) = false) /\ d = zin t (k2_h1 k) /\
+      (p = true -> zin t (k2_rec k) = false) /\ (d = true -> zin t (k2_h1 k) = true) /\
       (zin t (k2_sent k) = true -> d = true) /\ 0 < qs
   | _ => True
   end.
@@ -245,7 +245,7 @@ Proof.
   assert (Hqs : (qs >? 0) = true) by lia.
   set (k1 := k02_ev p k (Handed cn (PPublish m qs d t0))).
   assert (Hok1 : k2_ok k1 = true).
-  { unfold k1. cbn [k02_ev k2_ok]. rewrite Hok, Hd, Hqs. cbn [andb orb]. destruct (zin t0 (k2_h1 k)); reflexivity. }
+  { unfold k1. cbn [k02_ev k2_ok]. rewrite Hok, Hqs. cbn [andb orb]. destruct d; [rewrite (Hd eq_refl)|rewrite orb_true_r]; reflexivity. }
   assert (H1 : forall t, zin t (k2_h1 k1) = zin t (k2_h1 k) || zin t [t0]).
   { intros t. unfold k1. cbn [k02_ev k2_h1]. rewrite zin_zadd. cbn [zin]. rewrite orb_false_r. apply orb_comm. }
   assert (H2 : forall t, zin t (k2_h2 k1) = zin t (k2_h2 k) || (zin t [t0] && zin t (k2_h1 k))).
@@ -256,7 +256,7 @@ Proof.
     - destruct (t =? t0) eqn:Et; cbn [andb]; [|rewrite orb_false_r; reflexivity].
       assert (t = t0) by lia. subst. rewrite E, orb_false_r. reflexivity. }
   assert (Hd2 : d = true -> zin t0 (k2_h2 k1) = true).
-  { intros ->. rewrite H2. cbn [zin]. rewrite Z.eqb_refl, <- Hd. cbn. apply orb_true_r. }
+  { intros Ed. rewrite H2. cbn [zin]. rewrite Z.eqb_refl, (Hd Ed). cbn. apply orb_true_r. }
   destruct can; cbn [fold_left]; fold k1.
   - set (k2 := k02_ev p k1 (Tx cn (PPublish m qs d t0))).
     assert (Hok2 : k2_ok k2 = true).
@@ -389,7 +389,7 @@ Definition pk_inv (s : sess) (k : k02) (x : qpkt) : Prop :=
 Record R (c : cfg) (s : sess) (k : k02) : Prop := mkR {
   r_ok : k2_ok k = true;
   r_live : k2_live k = map lm (out s);
-  r_h1 : forall m, In m (out s) -> zin (o_tag m) (k2_h1 k) = snt m;
+  r_h1 : forall m, In m (out s) -> snt m = true -> zin (o_tag m) (k2_h1 k) = true;
   r_h1b : forall t, zin t (k2_h1 k) = true -> t < ntag s;
   r_sh : forall t, zin t (k2_sent k) = true -> t < ntag s;
   r_pend : forall m, In m (out s) -> isPub m = true \/ is_queued m = true ->
@@ -402,7 +402,8 @@ Record R (c : cfg) (s : sess) (k : k02) : Prop := mkR {
   r_clean : c_clean c = 2 -> first s = true -> k2_rec k = [];
   r_pk : Forall (pk_inv s k) (outq s);
   r_nd : NoDup (pubtags (outq s));
-  r_blk : sock s = true -> k2_blk k = blocked s
+  r_blk : sock s = true -> k2_blk k = blocked s;
+  r_qlt : forall t, In t (pubtags (outq s)) -> t < ntag s
 }.
 
 Lemma inv_nodup_tags c s : Inv c s -> NoDup (tags (out s)).
@@ -466,12 +467,12 @@ Lemma wait_of_notrec m q : o_st m = wait_of q -> isrec m = false.
 Proof. unfold wait_of, isrec. intros ->. destruct (q =? 1); reflexivity. Qed.
 
 (* every tag of a queued PUBLISH is below the counter; a QoS>0 one belongs to a stored message in its wait state *)
-Lemma outq_pub c s k x mi qs d t : Inv c s -> R c s k -> In x (outq s) -> q_pkt x = PPublish mi qs d t ->
+Lemma outq_pub c s k x mi qs d t : Inv c s -> R c s k -> sock s = true -> In x (outq s) -> q_pkt x = PPublish mi qs d t ->
   t < ntag s /\ 0 <= qs /\
   (qs <> 0 -> exists w, In w (out s) /\ o_tag w = t /\ o_dup w = d /\ o_st w = wait_of qs /\ 0 < qs).
 Proof.
-  intros I HR Hx Ex.
-  pose proof (proj1 (Forall_forall _ _) (inv_q _ _ I) x Hx) as Hok. unfold qpkt_ok in Hok. rewrite Ex in Hok.
+  intros I HR Hs Hx Ex.
+  pose proof (proj1 (Forall_forall _ _) (inv_q _ _ I Hs) x Hx) as Hok. unfold qpkt_ok in Hok. rewrite Ex in Hok.
   pose proof (proj1 (Forall_forall _ _) (r_pk _ _ _ HR) x Hx) as Hpk. unfold pk_inv in Hpk. rewrite Ex in Hpk.
   destruct (Z.eq_dec qs 0) as [E0|E0].
   - destruct Hpk as (_ & _ & H0). destruct (H0 E0) as (_ & _ & Hlt). split; [exact Hlt|]. split; [lia|]. intros H; contradiction.
@@ -481,12 +482,12 @@ Proof.
 Qed.
 
 (* the queue can be written at any time *)
-Lemma outq_wc c s k : Inv c s -> R c s k -> Forall (wc (pers c) k) (outq s).
+Lemma outq_wc c s k : Inv c s -> R c s k -> sock s = true -> Forall (wc (pers c) k) (outq s).
 Proof.
-  intros I HR. apply Forall_forall. intros x Hx.
+  intros I HR Hs. apply Forall_forall. intros x Hx.
   pose proof (proj1 (Forall_forall _ _) (r_pk _ _ _ HR) x Hx) as Hpk. unfold pk_inv, wc in *.
   destruct (q_pkt x) as [|mi qs d t| | | |] eqn:Ex; try exact Logic.I.
-  destruct Hpk as (P1 & P2 & P3). destruct (outq_pub c s k x mi qs d t I HR Hx Ex) as (Hlt & Hq0 & Hw).
+  destruct Hpk as (P1 & P2 & P3). destruct (outq_pub c s k x mi qs d t I HR Hs Hx Ex) as (Hlt & Hq0 & Hw).
   split; [|split; [exact P1|split; [exact P2|split; [|exact Hq0]]]].
   - intros Ep. destruct (Z.eq_dec qs 0) as [E0|E0].
     + destruct (P3 E0) as (_ & Hn & _). destruct (zin t (k2_rec k)) eqn:E; [|reflexivity].
@@ -511,7 +512,7 @@ Proof.
   split; [|split; [|split]].
   - intros Ep. apply (notrec_msg c s k m I HR (pers_true _ Ep) Hin).
     destruct Hst as [H|H]; [apply pub_nrec | apply queued_nrec]; exact H.
-  - rewrite (r_h1 _ _ _ HR m Hin). symmetry. destruct Hst as [H|H]; [apply snt_pub | apply snt_queued]; exact H.
+  - intros Hd. apply (r_h1 _ _ _ HR m Hin). destruct Hst as [H|H]; [rewrite (snt_pub m H) | rewrite (snt_queued m H)]; exact Hd.
   - apply (r_pend _ _ _ HR m Hin Hst).
   - apply qos_pos. exact (inv_qos_ok _ _ _ I Hin).
 Qed.
@@ -582,17 +583,18 @@ Qed.
 Lemma R_ext c s s' k : out s' = out s -> ntag s <= ntag s' -> sock s' = sock s -> cack s' = cack s ->
   first s' = first s -> outq s' = outq s -> blocked s' = blocked s -> R c s k -> R c s' k.
 Proof.
-  intros E1 E2 E3 E4 E5 E6 E7 [H1 H2 H3 H4 H5 H6 H7 H8 H9 H10 H11 H12 H13].
+  intros E1 E2 E3 E4 E5 E6 E7 [H1 H2 H3 H4 H5 H6 H7 H8 H9 H10 H11 H12 H13 H14].
   constructor; rewrite ?E1, ?E3, ?E4, ?E5, ?E6, ?E7; try assumption.
   - intros t Ht. specialize (H4 t Ht). lia.
   - intros t Ht. specialize (H5 t Ht). lia.
   - eapply Forall_impl; [|exact H11]. intros x. apply pk_inv_ext; assumption.
+  - intros t Ht. specialize (H14 t Ht). lia.
 Qed.
 
 Lemma R_down c s s' k : out s' = out s -> ntag s' = ntag s -> sock s' = false -> cack s' = false ->
   (first s' = true -> first s = true) -> outq s' = outq s -> R c s k -> R c s' k.
 Proof.
-  intros E1 E2 E3 E4 E5 E6 [H1 H2 H3 H4 H5 H6 H7 H8 H9 H10 H11 H12 H13].
+  intros E1 E2 E3 E4 E5 E6 [H1 H2 H3 H4 H5 H6 H7 H8 H9 H10 H11 H12 H13 H14].
   constructor; rewrite ?E1, ?E2, ?E6; try assumption.
   - intros Hc t Ht. destruct (H7 Hc t Ht) as (m & Hin & Et & Hq & Hr & _).
     exists m. repeat split; try assumption. rewrite E3. discriminate.
@@ -621,21 +623,18 @@ Proof.
   cbn [flat_map]. rewrite app_nil_r.
   rewrite quiet_op by (rewrite forallb_app, Hpre; apply reply_quiet; exact Hx).
   rewrite (hand_all_fst _ _ _ _ (inv_qidle _ _ I)).
-  destruct HR as [H1 H2 H3 H4 H5 H6 H7 H8 H9 H10 H11 H12 H13].
+  destruct HR as [H1 H2 H3 H4 H5 H6 H7 H8 H9 H10 H11 H12 H13 H14].
   constructor; cbn [out ntag sock cack first outq blocked with_q]; try assumption.
   - destruct (can_write s); [constructor|]. apply Forall_app. split; [exact H11|].
     constructor; [|constructor]. unfold pk_inv. unfold is_reply in Hx. destruct (q_pkt x); try contradiction; exact Logic.I.
   - destruct (can_write s); [constructor|]. rewrite pubtags_app. unfold pubtags at 2. cbn [flat_map]. rewrite Hp, app_nil_r. exact H12.
+  - destruct (can_write s); [intros t []|]. rewrite pubtags_app. unfold pubtags at 2. cbn [flat_map]. rewrite Hp, app_nil_r. exact H14.
 Qed.
 
 (* ---------------------------------------------------------------- publish() *)
 (* all tags in the queue are below the counter *)
 Lemma outq_tags_lt c s k t : Inv c s -> R c s k -> In t (pubtags (outq s)) -> t < ntag s.
-Proof.
-  intros I HR Ht. unfold pubtags in Ht. apply in_flat_map in Ht as (x & Hx & Ht).
-  unfold pubtag in Ht. destruct (q_pkt x) as [|mi qs d t0| | | |] eqn:Ex; try (destruct Ht; fail).
-  destruct Ht as [<-|[]]. exact (proj1 (outq_pub c s k x mi qs d t0 I HR Hx Ex)).
-Qed.
+Proof. intros _ HR. exact (r_qlt _ _ _ HR t). Qed.
 
 Lemma idle_ext (s s1 : sess) : sock s1 = sock s -> blocked s1 = blocked s -> outq s1 = outq s ->
   (can_write s = true -> outq s = []) -> (can_write s1 = true -> outq s1 = []).
@@ -665,7 +664,8 @@ Proof.
   intros I HR Ht Hn Hs Hh. apply Forall_forall. intros y Hy.
   pose proof (proj1 (Forall_forall _ _) (r_pk _ _ _ HR) y Hy) as Hpk. unfold pk_inv in *.
   destruct (q_pkt y) as [|mi qs d t| | | |] eqn:Ey; try exact Logic.I.
-  destruct (outq_pub c s k y mi qs d t I HR Hy Ey) as (Hlt & _ & _).
+  assert (Hlt : t < ntag s).
+  { apply (r_qlt _ _ _ HR). unfold pubtags. apply in_flat_map. exists y. split; [exact Hy|]. unfold pubtag. rewrite Ey. left. reflexivity. }
   destruct Hpk as (P1 & P2 & P3). split; [|split].
   - intros H. destruct (Hs t H) as [H'|H']; [exact (P1 H') | lia].
   - intros H. apply Hh. exact (P2 H).
@@ -689,7 +689,7 @@ Proof.
     set (x := mkQ (PPublish mid 0 false (ntag s)) true).
     assert (Hi1 : can_write s1 = true -> outq s1 = []) by (apply (idle_ext s); [cbn; congruence | reflexivity | reflexivity | exact Hi]).
     rewrite (send_hand_all s1 x). cbn [fst snd]. rewrite (hand_all_fst _ _ _ _ Hi1).
-    destruct HR as [H1 H2 H3 H4 H5 H6 H7 H8 H9 H10 H11 H12 H13].
+    destruct HR as [H1 H2 H3 H4 H5 H6 H7 H8 H9 H10 H11 H12 H13 H14].
     destruct (can_write s1) eqn:Ec.
     + (* written at once *)
       rewrite (Hi1 eq_refl), hand_all_can. cbn [snd flat_map flush_evs written_evs x q_pkt app].
@@ -700,8 +700,7 @@ Proof.
       constructor; cbn [k2_ok k2_live k2_h1 k2_h2 k2_sent k2_rec k2_blk out ntag sock cack first outq blocked with_q s1].
       * exact H1.
       * rewrite H2. apply lrem_tag_notin. exact Fn.
-      * intros m Hin. rewrite zin_zadd. pose proof (inv_tag_lt _ _ _ I Hin).
-        replace (o_tag m =? ntag s) with false by lia. apply H3. exact Hin.
+      * intros m Hin Hsn. rewrite zin_zadd. rewrite (H3 m Hin Hsn). apply orb_true_r.
       * intros t Ht. rewrite zin_zadd in Ht. apply orb_true_iff in Ht as [Ht|Ht]; [lia|]. specialize (H4 t Ht). lia.
       * intros t Ht. rewrite zin_zadd in Ht. apply orb_true_iff in Ht as [Ht|Ht]; [lia|]. specialize (H5 t Ht). lia.
       * intros m Hin Hst Hz. rewrite zin_zadd in Hz. pose proof (inv_tag_lt _ _ _ I Hin).
@@ -714,6 +713,7 @@ Proof.
       * constructor.
       * constructor.
       * intros _. exact (H13 Hs).
+      * intros t [].
     + (* the transport refuses writes: the packet waits in the queue *)
       rewrite hand_all_blocked. cbn [snd map app x q_pkt].
       rewrite k02_op_plain by reflexivity. cbn [fold_left k02_ev].
@@ -721,18 +721,19 @@ Proof.
       change (0 >? 0) with false. cbn [negb andb orb]. rewrite !andb_true_r.
       constructor; cbn [k2_ok k2_live k2_h1 k2_h2 k2_sent k2_rec k2_blk out ntag sock cack first outq blocked with_q s1];
         try assumption.
-      * intros m Hin. rewrite zin_zadd. pose proof (inv_tag_lt _ _ _ I Hin).
-        replace (o_tag m =? ntag s) with false by lia. apply H3. exact Hin.
+      * intros m Hin Hsn. rewrite zin_zadd. rewrite (H3 m Hin Hsn). apply orb_true_r.
       * intros t Ht. rewrite zin_zadd in Ht. apply orb_true_iff in Ht as [Ht|Ht]; [lia|]. specialize (H4 t Ht). lia.
       * intros t Ht. specialize (H5 t Ht). lia.
       * intros Hc t Ht. destruct (H7 Hc t Ht) as (m & A & B & C1 & D & E). exists m. repeat split; try assumption. intros _. apply E. exact Hs.
       * apply Forall_app. split.
-        -- apply (pk_grow c s k _ _ I (mkR c s k H1 H2 H3 H4 H5 H6 H7 H8 H9 H10 H11 H12 H13));
+        -- apply (pk_grow c s k _ _ I (mkR c s k H1 H2 H3 H4 H5 H6 H7 H8 H9 H10 H11 H12 H13 H14));
              [intros t Ht; left; exact Ht | cbn; lia | intros t Ht; left; exact Ht | intros t Ht; exact Ht].
         -- constructor; [|constructor]. unfold pk_inv. cbn [q_pkt x k2_sent k2_h2 out ntag with_q s1].
            split; [intros Hz; congruence|]. split; [discriminate|]. intros _. split; [reflexivity|]. split; [exact Fn | lia].
       * rewrite pubtags_app. cbn. apply NoDup_app_snoc; assumption.
       * intros _. exact (H13 Hs).
+      * intros t Ht. rewrite pubtags_app in Ht. apply in_app_or in Ht as [Ht|Ht]; [specialize (H14 t Ht); lia|].
+        cbn in Ht. destruct Ht as [<-|[]]. lia.
   - assert (Hq0 : (q >? 0) = true) by lia.
     destruct ((c_maxq c >? 0) && (Z.of_nat (length (out s)) >=? c_maxq c)); cbn [fst snd].
     { rewrite quiet_op; [exact HR1|]. cbn [forallb quiet]. rewrite Hq0. reflexivity. }
@@ -746,15 +747,15 @@ Proof.
               (forall t, zin t (k2_h1 k') = zin t (k2_h1 k) || (snt (mkO mid q st false (ntag s)) && (t =? ntag s))) ->
               (forall t, zin t (k2_sent k') = true -> zin t (k2_sent k) = true \/ (t = ntag s /\ snt (mkO mid q st false (ntag s)) = true)) ->
               Forall (pk_inv s' k') (outq s') -> NoDup (pubtags (outq s')) ->
+              (forall t, In t (pubtags (outq s')) -> t < ntag s + 1) ->
               R c s' k').
-    { intros st s' k' E1 E2 E3 E4 E5 E6 Kok Kl Kr Kb Kh Ks Kpk Knd.
-      destruct HR as [H1 H2 H3 H4 H5 H6 H7 H8 H9 H10 H11 H12 H13].
+    { intros st s' k' E1 E2 E3 E4 E5 E6 Kok Kl Kr Kb Kh Ks Kpk Knd Kq.
+      destruct HR as [H1 H2 H3 H4 H5 H6 H7 H8 H9 H10 H11 H12 H13 H14].
       constructor; rewrite ?E1, ?E2, ?E3, ?E4, ?E5, ?E6, ?Kr, ?Kb; try assumption.
       - rewrite Kl, map_app, H2. reflexivity.
-      - intros m Hin. rewrite Kh. apply in_app_or in Hin as [Hin|[<-|[]]].
-        + pose proof (inv_tag_lt _ _ _ I Hin). replace (o_tag m =? ntag s) with false by lia.
-          rewrite andb_false_r, orb_false_r. apply H3. exact Hin.
-        + cbn [o_tag]. rewrite Fh, Z.eqb_refl, andb_true_r. reflexivity.
+      - intros m Hin Hsn. rewrite Kh. apply in_app_or in Hin as [Hin|[<-|[]]].
+        + rewrite (H3 m Hin Hsn). reflexivity.
+        + cbn [o_tag]. rewrite Hsn, Z.eqb_refl. apply orb_true_r.
       - intros t Ht. rewrite Kh in Ht. apply orb_true_iff in Ht as [Ht|Ht]; [specialize (H4 t Ht); lia | lia].
       - intros t Ht. destruct (Ks t Ht) as [Hs'|[-> Hsn]]; [specialize (H5 t Hs'); lia | lia].
       - intros m Hin Hst Hz. apply in_app_or in Hin as [Hin|[<-|[]]].
@@ -774,7 +775,7 @@ Proof.
       rewrite (hand_all_evs _ _ _ _ Hi1 ltac:(constructor; [exact Hn|constructor])), (hand_all_fst _ _ _ _ Hi1).
       rewrite k02_op_plain by (rewrite existsb_app, noconn_ev1; reflexivity). rewrite fold_left_app.
       assert (Hhc : Forall (hc (pers c) k) [x]).
-      { constructor; [|constructor]. unfold hc. cbn [x q_pkt]. split; [intros _; exact Fr|]. split; [symmetry; exact Fh|].
+      { constructor; [|constructor]. unfold hc. cbn [x q_pkt]. split; [intros _; exact Fr|]. split; [discriminate|].
         split; [intros Hz; congruence | lia]. }
       destruct (hand_fold (pers c) (can_write S1) (conn S1) [x] k (r_ok _ _ _ HR) ltac:(cbn; repeat constructor; intros [])
                   Hhc) as ((Ok1 & L1 & R1 & B1) & A1 & A2 & A3).
@@ -798,6 +799,9 @@ Proof.
            split; [intros Hz; rewrite A3 in Hz; cbn [andb] in Hz; rewrite orb_false_r in Hz; congruence|].
            split; [discriminate|]. intros; lia.
       * destruct (can_write S1); [constructor|]. rewrite pubtags_app. cbn. apply NoDup_app_snoc; [exact (r_nd _ _ _ HR) | exact Fq].
+      * destruct (can_write S1); [intros t []|]. intros t Ht. rewrite pubtags_app in Ht. apply in_app_or in Ht as [Ht|Ht].
+        -- pose proof (r_qlt _ _ _ HR t Ht). lia.
+        -- cbn in Ht. destruct Ht as [<-|[]]. lia.
     + (* offline: stored, nothing handed over *)
       rewrite k02_op_plain by reflexivity. cbn [fold_left k02_ev]. rewrite Hq0. cbn [Z.eqb andb orb].
       eapply (Hgrow MsPublish); try reflexivity; cbn [k2_ok k2_live k2_h1 k2_h2 k2_sent k2_rec k2_blk outq with_out s1]; try (cbn; congruence).
@@ -811,6 +815,7 @@ Proof.
         -- intros t Ht. left. exact Ht.
         -- intros t Ht. exact Ht.
       * exact (r_nd _ _ _ HR).
+      * intros t Ht. pose proof (r_qlt _ _ _ HR t Ht). lia.
     + (* queued behind the window *)
       rewrite k02_op_plain by reflexivity. cbn [fold_left k02_ev]. rewrite Hq0. cbn [Z.eqb andb orb].
       eapply (Hgrow MsQueued); try reflexivity; cbn [k2_ok k2_live k2_h1 k2_h2 k2_sent k2_rec k2_blk outq with_out s1].
@@ -824,6 +829,7 @@ Proof.
         -- intros t Ht. left. exact Ht.
         -- intros t Ht. exact Ht.
       * exact (r_nd _ _ _ HR).
+      * intros t Ht. pose proof (r_qlt _ _ _ HR t Ht). lia.
 Qed.
 
 (* ---------------------------------------------------------------- reconnect() *)
@@ -903,6 +909,7 @@ Proof.
   - constructor.
   - constructor.
   - intros _. reflexivity.
+  - intros t [].
 Qed.
 
 Lemma step_reconnect c s k ok : cfg_ok c = true -> Inv c s -> R c s k ->
@@ -923,7 +930,7 @@ Proof.
     pose proof (R_reset c s k (mkK02 (k2_live k) (k2_h1 k) (k2_h2 k) (k2_sent k) (k2_rec k) false (k2_ok k)) A B
                   (if clean_now c s then [] else inm s) n false (conn s) Hcfg I HR Eo HB
                   eq_refl eq_refl eq_refl eq_refl eq_refl eq_refl eq_refl) as H.
-    destruct H as [H1 H2 H3 H4 H5 H6 H7 H8 H9 H10 H11 H12 H13].
+    destruct H as [H1 H2 H3 H4 H5 H6 H7 H8 H9 H10 H11 H12 H13 H14].
     constructor; try assumption. cbn [sock]. discriminate.
 Qed.
 
@@ -1019,16 +1026,11 @@ Proof.
                                           with_q with_out connack_s1].
     - reflexivity.
     - rewrite L1, (r_live _ _ _ HR), Eo, !map_app, map_map. f_equal. apply map_ext. intros a. symmetry. apply lm_cl1.
-    - intros m' Hin. rewrite A1. apply in_app_or in Hin as [Hin|Hin].
+    - intros m' Hin Hsn. rewrite A1. apply in_app_or in Hin as [Hin|Hin].
       + apply in_map_iff in Hin as (x & <- & Hx). rewrite cl1_tag. destruct (isPub x) eqn:Ep.
-        * rewrite (Hf2 x Hx Ep), orb_true_r. symmetry. apply snt_cl1_pub. exact Ep.
-        * rewrite (snt_cl1_other _ Ep), <- (r_h1 _ _ _ HR x (HinC x Hx)).
-          destruct (zin (o_tag x) (tags (filter isPub C))) eqn:Ez; [|apply orb_false_r].
-          destruct (Hf1 x (HinC x Hx) Ez). congruence.
-      + rewrite <- (r_h1 _ _ _ HR m' (HinQ m' Hin)).
-        destruct (zin (o_tag m') (tags (filter isPub C))) eqn:Ez; [|apply orb_false_r].
-        destruct (Hf1 m' (HinQ m' Hin) Ez) as [_ Hp].
-        pose proof (queued_npub m' (proj1 (Forall_forall _ _) HQ m' Hin)). congruence.
+        * rewrite (Hf2 x Hx Ep). apply orb_true_r.
+        * rewrite (snt_cl1_other _ Ep) in Hsn. rewrite (r_h1 _ _ _ HR x (HinC x Hx) Hsn). reflexivity.
+      + rewrite (r_h1 _ _ _ HR m' (HinQ m' Hin) Hsn). reflexivity.
     - intros t Ht. rewrite A1 in Ht. apply orb_true_iff in Ht as [Ht|Ht].
       + exact (r_h1b _ _ _ HR _ Ht).
       + apply zin_tags in Ht as (y & Hy & <-). apply filter_In in Hy as [Hy _].
@@ -1071,7 +1073,7 @@ Proof.
           split; [|split].
           -- intros Hz. rewrite A3 in Hz. cbn [andb] in Hz. rewrite orb_false_r in Hz.
              apply (r_pend _ _ _ HR m (HinC m Hm)); [left; exact Hp | exact Hz].
-          -- intros Hd. rewrite A2, (Hf2 m Hm Hp), (r_h1 _ _ _ HR m (HinC m Hm)), (snt_pub m Hp), Hd. apply orb_true_r.
+          -- intros Hd. rewrite A2, (Hf2 m Hm Hp), (r_h1 _ _ _ HR m (HinC m Hm) ltac:(rewrite (snt_pub m Hp); exact Hd)). apply orb_true_r.
           -- intros E0. pose proof (qos_pos m (inv_qos_ok _ _ _ I (HinC m Hm))). lia.
         * constructor.
         * destruct (o_qos m =? 2); repeat constructor.
@@ -1081,14 +1083,18 @@ Proof.
       unfold tags in Ht2. apply in_map_iff in Ht2 as (m & <- & Hm). apply filter_In in Hm as [Hm Hp].
       unfold pubtags in Ht1. apply in_flat_map in Ht1 as (y & Hy & Ht1). unfold pubtag in Ht1.
       destruct (q_pkt y) as [|mi qs d t| | | |] eqn:Ey; try (destruct Ht1; fail). destruct Ht1 as [Et|[]]. subst t.
-      destruct (outq_pub c s k y mi qs d (o_tag m) I HR Hy Ey) as (_ & _ & Hw).
+      destruct (outq_pub c s k y mi qs d (o_tag m) I HR Hs Hy Ey) as (_ & _ & Hw).
       destruct (Z.eq_dec qs 0) as [E0|E0].
       + pose proof (proj1 (Forall_forall _ _) (r_pk _ _ _ HR) y Hy) as Hpk. unfold pk_inv in Hpk. rewrite Ey in Hpk.
         destruct Hpk as (_ & _ & P3). destruct (P3 E0) as (_ & B & _). apply B. unfold tags. apply in_map. exact (HinC m Hm).
       + destruct (Hw E0) as (w & Hwi & Et & _ & Hst & _).
         assert (w = m) by (eapply tag_inj; [exact Hnd | exact Hwi | exact (HinC m Hm) | exact Et]). subst w.
         revert Hp Hst. unfold isPub, wait_of. destruct (o_st m); try discriminate. destruct (qs =? 1); discriminate.
-    - intros _. rewrite B1. exact (r_blk _ _ _ HR Hs). }
+    - intros _. rewrite B1. exact (r_blk _ _ _ HR Hs).
+    - destruct (can_write s); [intros t []|]. intros t Ht. rewrite pubtags_app in Ht. apply in_app_or in Ht as [Ht|Ht].
+      + exact (r_qlt _ _ _ HR t Ht).
+      + unfold H in Ht. rewrite pubtags_cl in Ht. unfold tags in Ht. apply in_map_iff in Ht as (m & <- & Hm).
+        apply filter_In in Hm as [Hm _]. apply (inv_tag_lt _ _ _ I (HinC m Hm)). }
   unfold k02_op. cbn [existsb is_connack0 is_socklost fold_left k02_ev]. change (0 =? 0) with true. cbn [orb].
   rewrite nolost_ev1. cbn [negb]. rewrite !andb_true_r.
   fold k'. destruct (pers c) eqn:Ep.
@@ -1194,13 +1200,13 @@ Proof.
   - exact Ok1.
   - rewrite L1, (r_live _ _ _ HR), Eo, (lrem_tag_split l1 m (l2 ++ L ++ B)) by (rewrite <- Eo; exact Hnd).
     fold o'. unfold o'. rewrite !map_app, map_map. rewrite <- !app_assoc. reflexivity.
-  - fold o'. intros x Hx. rewrite A1. destruct (Ho' x Hx) as [Hx'|[Hx'|[(y & Hy & ->)|Hx']]].
-    + rewrite (HnL x (Hi1 x Hx') (D1 x Hx')), orb_false_r. apply (r_h1 _ _ _ HR). apply Hi1. exact Hx'.
-    + rewrite (HnL x (Hi2 x Hx') (D2 x Hx')), orb_false_r. apply (r_h1 _ _ _ HR). apply Hi2. exact Hx'.
-    + rewrite snt_rel1. change (o_tag (rel1 y)) with (o_tag y).
+  - fold o'. intros x Hx Hsn. rewrite A1. destruct (Ho' x Hx) as [Hx'|[Hx'|[(y & Hy & ->)|Hx']]].
+    + rewrite (r_h1 _ _ _ HR x (Hi1 x Hx') Hsn). reflexivity.
+    + rewrite (r_h1 _ _ _ HR x (Hi2 x Hx') Hsn). reflexivity.
+    + change (o_tag (rel1 y)) with (o_tag y).
       replace (zin (o_tag y) (tags L)) with true; [apply orb_true_r|].
       symmetry. apply zin_tags. exists y. split; [exact Hy|reflexivity].
-    + rewrite (HnL x (HiB x Hx') (D3 x Hx')), orb_false_r. apply (r_h1 _ _ _ HR). apply HiB. exact Hx'.
+    + rewrite (r_h1 _ _ _ HR x (HiB x Hx') Hsn). reflexivity.
   - intros t Ht. rewrite A1 in Ht. apply orb_true_iff in Ht as [Ht|Ht].
     + exact (r_h1b _ _ _ HR _ Ht).
     + apply zin_tags in Ht as (y & Hy & <-). apply (inv_tag_lt _ _ _ I (HiL y Hy)).
@@ -1251,7 +1257,7 @@ Proof.
       * intros Hz. rewrite A3 in Hz. cbn [andb] in Hz. rewrite orb_false_r in Hz.
         apply (r_pend _ _ _ HR y (HiL y Hy)); [right; exact Hqy | exact Hz].
       * intros Hd. rewrite A2. replace (zin (o_tag y) (tags L)) with true by (symmetry; apply zin_tags; exists y; split; [exact Hy|reflexivity]).
-        rewrite (r_h1 _ _ _ HR y (HiL y Hy)), (snt_queued y Hqy), Hd. apply orb_true_r.
+        rewrite (r_h1 _ _ _ HR y (HiL y Hy) ltac:(rewrite (snt_queued y Hqy); exact Hd)). apply orb_true_r.
       * intros E0. pose proof (qos_pos y (inv_qos_ok _ _ _ I (HiL y Hy))). lia.
   - destruct (can_write s) eqn:Ec; [constructor|]. rewrite pubtags_app.
     apply NoDup_app_intro; [exact (r_nd _ _ _ HR) | exact HndH|].
@@ -1260,7 +1266,7 @@ Proof.
     pose proof (proj1 (Forall_forall _ _) HL y Hy) as Hqy. cbn beta in Hqy.
     unfold pubtags in Ht1. apply in_flat_map in Ht1 as (z & Hz & Ht1). unfold pubtag in Ht1.
     destruct (q_pkt z) as [|mi qs d t| | | |] eqn:Ez; try (destruct Ht1; fail). destruct Ht1 as [Et|[]]. subst t.
-    destruct (outq_pub c s k z mi qs d (o_tag y) I HR Hz Ez) as (_ & _ & Hwz).
+    destruct (outq_pub c s k z mi qs d (o_tag y) I HR Hs Hz Ez) as (_ & _ & Hwz).
     destruct (Z.eq_dec qs 0) as [E0|E0].
     + pose proof (proj1 (Forall_forall _ _) (r_pk _ _ _ HR) z Hz) as Hpk. unfold pk_inv in Hpk. rewrite Ez in Hpk.
       destruct Hpk as (_ & _ & P3). destruct (P3 E0) as (_ & B0 & _). apply B0. unfold tags. apply in_map. exact (HiL y Hy).
@@ -1268,6 +1274,10 @@ Proof.
       assert (w = y) by (eapply tag_inj; [exact Hnd | exact Hwi | exact (HiL y Hy) | exact Et]). subst w.
       revert Hqy Hst. unfold is_queued, wait_of. destruct (o_st y); try discriminate. destruct (qs =? 1); discriminate.
   - intros _. rewrite B1. exact (r_blk _ _ _ HR Hs).
+  - destruct (can_write s); [intros t []|]. intros t Ht. rewrite pubtags_app in Ht. apply in_app_or in Ht as [Ht|Ht].
+    + exact (r_qlt _ _ _ HR t Ht).
+    + unfold H in Ht. rewrite pubtags_rel in Ht. unfold tags in Ht. apply in_map_iff in Ht as (y & <- & Hy).
+      apply (inv_tag_lt _ _ _ I (HiL y Hy)).
 Qed.
 
 (* ---------------------------------------------------------------- PUBREC *)
@@ -1312,9 +1322,9 @@ Proof.
     constructor; cbn [with_out with_q out ntag sock cack first outq blocked k2_ok k2_live k2_h1 k2_h2 k2_sent k2_rec k2_blk].
     + exact (r_ok _ _ _ HR).
     + rewrite (r_live _ _ _ HR), Eo, !map_app. reflexivity.
-    + intros y Hy. destruct (Hsub y Hy) as [->|Hy'].
-      * change (o_tag m') with (o_tag m). rewrite (r_h1 _ _ _ HR m Hin). rewrite (snt_wait m Hw). reflexivity.
-      * apply (r_h1 _ _ _ HR). exact Hy'.
+    + intros y Hy Hsn. destruct (Hsub y Hy) as [->|Hy'].
+      * change (o_tag m') with (o_tag m). apply (r_h1 _ _ _ HR m Hin). apply (snt_wait m Hw).
+      * apply (r_h1 _ _ _ HR); assumption.
     + exact (r_h1b _ _ _ HR).
     + exact (r_sh _ _ _ HR).
     + intros y Hy Hsty Hz. destruct (Hsub y Hy) as [->|Hy'].
@@ -1340,6 +1350,8 @@ Proof.
     + change (can_write (with_out s (update_mid mid (fun m0 => set_st m0 MsWaitPubcomp) (out s)) (inflight s))) with (can_write s).
       destruct (can_write s); [constructor|]. rewrite pubtags_app. cbn. rewrite app_nil_r. exact (r_nd _ _ _ HR).
     + exact (r_blk _ _ _ HR).
+    + change (can_write (with_out s (update_mid mid (fun m0 => set_st m0 MsWaitPubcomp) (out s)) (inflight s))) with (can_write s).
+      destruct (can_write s); [intros t []|]. rewrite pubtags_app. cbn. rewrite app_nil_r. exact (r_qlt _ _ _ HR).
   - rewrite k02_op_plain by reflexivity. cbn [fold_left k02_ev].
     rewrite (r_live _ _ _ HR), lfind_mid_map, Ef. cbn [option_map]. exact HR.
 Qed.
@@ -1351,12 +1363,12 @@ Proof.
   intros I HR. unfold do_block. destruct (sock s) eqn:Hs; [|cbn [fst snd]; rewrite quiet_op by reflexivity; exact HR].
   destruct b; cbn [fst snd lw].
   - rewrite k02_op_plain by reflexivity. cbn [fold_left k02_ev].
-    destruct HR as [H1 H2 H3 H4 H5 H6 H7 H8 H9 H10 H11 H12 H13].
+    destruct HR as [H1 H2 H3 H4 H5 H6 H7 H8 H9 H10 H11 H12 H13 H14].
     constructor; cbn [k2_ok k2_live k2_h1 k2_h2 k2_sent k2_rec k2_blk out ntag sock cack first outq blocked with_blocked];
       try assumption. intros _. reflexivity.
   - rewrite k02_op_plain by (cbn [existsb is_connack0 orb]; apply noconn_flush). cbn [fold_left].
     set (k0 := k02_ev (pers c) k (Blk false)).
-    assert (Hwc : Forall (wc (pers c) k0) (outq s)) by exact (outq_wc c s k I HR).
+    assert (Hwc : Forall (wc (pers c) k0) (outq s)) by exact (outq_wc c s k I HR Hs).
     destruct (flush_fold02 (pers c) (conn s) (outq s) k0 (r_ok _ _ _ HR) (r_nd _ _ _ HR) Hwc)
       as ((Ok1 & L1 & R1 & B1) & G1 & G2 & A3).
     set (k' := fold_left (k02_ev (pers c)) (flush_evs (conn s) (outq s)) k0) in *.
@@ -1372,7 +1384,7 @@ Proof.
     + intros m Hin Hst Hz. rewrite A3 in Hz. apply orb_true_iff in Hz as [Hz|Hz]; [exact (r_pend _ _ _ HR m Hin Hst Hz)|].
       exfalso. apply zin_In in Hz. unfold pubtags in Hz. apply in_flat_map in Hz as (y & Hy & Ht). unfold pubtag in Ht.
       destruct (q_pkt y) as [|mi qs d t| | | |] eqn:Ey; try (destruct Ht; fail). destruct Ht as [Et|[]]. subst t.
-      destruct (outq_pub c s k y mi qs d (o_tag m) I HR Hy Ey) as (_ & _ & Hwy).
+      destruct (outq_pub c s k y mi qs d (o_tag m) I HR Hs Hy Ey) as (_ & _ & Hwy).
       destruct (Z.eq_dec qs 0) as [E0|E0].
       * pose proof (proj1 (Forall_forall _ _) (r_pk _ _ _ HR) y Hy) as Hpk. unfold pk_inv in Hpk. rewrite Ey in Hpk.
         destruct Hpk as (_ & _ & P3). destruct (P3 E0) as (_ & B0 & _). apply B0. unfold tags. apply in_map. exact Hin.
@@ -1387,6 +1399,7 @@ Proof.
     + constructor.
     + constructor.
     + intros _. exact B1.
+    + intros t [].
 Qed.
 
 (* ---------------------------------------------------------------- one operation *)
